@@ -487,7 +487,9 @@ package impl
 //@ func Extension(ctx, input, args) (res, err)
 //@   requires ctx != nil && validColl(input)
 //@   requires forall k int :: 0 <= k && k < len(args) ==> args[k] != nil
-//@   ensures len(input) == 0 && len(args) == 1 ==> err == nil && len(res) == 0
+//@   let uv = evalRes(args[0], ctx.ExternalConstants, ctx.Now, input)
+//@   let uok = evalErr(args[0], ctx.ExternalConstants, ctx.Now, input) == nil && len(uv) == 1 && fromOk(uv[0]) && isStringV(fromS(uv[0]))
+//@   ensures len(input) == 0 && len(args) == 1 && uok ==> err == nil && len(res) == 0
 //@   assigns nothing
 //
 //@ func ReplaceMatches(ctx, input, args) (res, err)
